@@ -3009,6 +3009,14 @@ class ContractionTree:
                 ):
                     self.info[node].pop(k, None)
 
+        # the per node information is computed recursively from the children,
+        # so fill it in from the leaves upwards first - visiting e.g. the
+        # root of a very tall tree first would exceed the recursion limit
+        for node, _, _ in self.traverse():
+            self.get_flops(node)
+            self.get_size(node)
+            self.get_inds(node)
+
         if priority == "flops":
             nodes = sorted(
                 self.children.items(), key=lambda x: self.get_flops(x[0])
